@@ -1363,6 +1363,7 @@ func (c *Ctx) metadataMapping(pMeta string) {
 	presence := map[string]*regexp.Regexp{
 		"recoveryCommitment": regexp.MustCompile(`^\((\$1\.RecoveryCommitment (!=|==) ""|len\(\$1\.RecoveryCommitment\) (!=|==|>|<=) 0)\)=(true|false)$`),
 		"updateCommitment":   regexp.MustCompile(`^\((\$1\.UpdateCommitment (!=|==) ""|len\(\$1\.UpdateCommitment\) (!=|==|>|<=) 0)\)=(true|false)$`),
+		"updated":            regexp.MustCompile(`^\(\$1\.VersionID (!=|==) ""\)=(true|false)$|^\(len\(\$1\.VersionID\) (!=|==|>|<=) 0\)=(true|false)$|^\((\$1\.UpdatedTime (>|!=|==|<=) 0|0 (<|!=|==|>=) \$1\.UpdatedTime|\$1\.UpdatedTime >= 1)\)=(true|false)$`),
 		"anchorOrigin":       regexp.MustCompile(`^\(\$1\.AnchorOrigin (!=|==) nil(:[^)]*)?\)=(true|false)$`),
 	}
 	loopControl := regexp.MustCompile(`^\((len\(.*\) <= ι|ι < len\(.*\))\)=true$`)
